@@ -479,7 +479,8 @@ def _run_cell(kind, state, drv, op, optset):
     feats = ["family:state", "kind:" + kind, "state:" + state, "op:" + op, "opts:" + optset]
     case = {"fam": "state", "kind": kind, "state": state, "op": op, "optset": optset}
     if P.error is not None:
-        return "viol", {"sig": op_sig(op), "msg": "%s in state '%s': %s raised %r (options: %s)"
+        # the object kind is part of the sig so that a listed finding for one kind cannot hide another kind in the report
+        return "viol", {"sig": "%s:%s" % (op_sig(op), kind), "msg": "%s in state '%s': %s raised %r (options: %s)"
                         % (kind, state, op, P.error, optset), "features": feats, "case": case}
     if derr is not None:
         sig = "implicit-diagnostic-raises" if optset != "default" else "harness"
